@@ -96,7 +96,11 @@ class C12(PipelineCheck):
                    'names are compared as whole-word tokens; the translator-made names (Main, '
                    'FunctionN) are whitelisted']
     PROBES = ('generated', 'erased', 'overwritten', 'taint_var_type', 'taint_ret_type',
-              'taint_type_arg', 'taint_recorded_only', 'bounded_tparam_header', 'superclass_header')
+              'taint_type_arg', 'taint_recorded_only', 'bounded_tparam_header', 'superclass_header',
+              'taint_param_type', 'taint_field_type', 'taint_tparam_bound', 'taint_super_type_arg',
+              'taint_literal', 'taint_operator', 'taint_is_type', 'taint_bottom_cast',
+              'taint_flag_final_var', 'taint_flag_vararg', 'taint_flag_is_not',
+              'taint_projection_rendering')
     MAX_DEPTH = (1, 5)
     ROUNDS = (0, 1, 1, 2)
     TRANSLATE = False
@@ -170,6 +174,21 @@ class C12(PipelineCheck):
                 if node is None:
                     continue
                 sent = tp.SimpleClassifier(SENT)
+                rendering = None
+                if attr in ('var_type', 'ret_type', 'param_type', 'field_type') and \
+                        not getattr(node, 'vararg', False) and r.random() < 0.4:
+                    # composite sentinel: the RENDERING of use-site projections in a declared
+                    # type, Zq<out Zqin, in Zqcon, *> in the notation of the language
+                    za, zb, zc = (tp.TypeParameter(n) for n in ('Za', 'Zb', 'Zc'))
+                    sent = tp.TypeConstructor(SENT, [za, zb, zc]).new([
+                        tp.WildCardType(tp.SimpleClassifier('Zqin'), tp.Covariant),
+                        tp.WildCardType(tp.SimpleClassifier('Zqcon'), tp.Contravariant),
+                        tp.WildCardType()])
+                    rendering = {
+                        'kotlin': SENT + '<out Zqin, in Zqcon, *>',
+                        'java': SENT + '<? extends Zqin, ? super Zqcon, ?>',
+                        'groovy': SENT + '<? extends Zqin, ? super Zqcon, ?>',
+                        'scala': SENT + '[? <: Zqin, ? >: Zqcon, ?]'}[lang]
                 try:
                     pred = self.put(node, attr, idx, sent, lang)
                     t2 = translate(p2)
@@ -183,6 +202,16 @@ class C12(PipelineCheck):
                 want = expect(lang, node)
                 if want is None:
                     continue
+                if rendering is not None and want and seen:
+                    probes['taint_projection_rendering'] = probes.get(
+                        'taint_projection_rendering', 0) + 1
+                    if rendering not in t2:
+                        m_ = re.search(re.escape(SENT) + r'[^\n;=){]{0,60}', t2)
+                        add('projection-rendering', '%s|%s' % (kind, type(node).__name__),
+                            'stage %s: the %s %s<out Zqin, in Zqcon, *> of %s %s is printed as %r, '
+                            'expected %r' % (name, kind, SENT, type(node).__name__,
+                                             getattr(node, 'name', ''),
+                                             m_.group(0) if m_ else None, rendering))
                 if seen != want:
                     scope = 'global' if path.count('/') <= 1 else (
                         'member' if re.match(r'^global/[^/]+/ClassDeclaration:functions\[\d+\]$'
